@@ -393,7 +393,7 @@ func (env *SpecEnv) evalBinary(n *Node) Val {
 		a := env.eval(n.Args[0])
 		b := env.eval(n.Args[1])
 		if !a.isInt() || !b.isInt() {
-			if a.T != nil && a.T == b.T && len(a.L) == 1 && flatten(a.T)[0].Kind == lkClock {
+			if a.T != nil && b.T != nil && types.Identical(a.T, b.T) && len(a.L) == 1 && flatten(a.T)[0].Kind == lkClock {
 				return mathBool(mkCmp(n.Op, a.L[0], b.L[0]))
 			}
 			sfail("comparison %s on non-integers", n.Op)
@@ -496,8 +496,8 @@ func (env *SpecEnv) viewEq(a, b Val, elem types.Type) string {
 	i := fmt.Sprintf("qv_i_%d", *env.qn)
 	var cs []string
 	for k := range flatten(elem) {
-		aa := mkSelect(ex.elemArr(env.cur, elem, k, a.L[0]), mkAdd(a.L[1], i))
-		bb := mkSelect(ex.elemArr(env.cur, elem, k, b.L[0]), mkAdd(b.L[1], i))
+		aa := mkSelect(ex.elemArr(env.cur, elem, k, a.L[0]), idxAdd(a.L[1], i))
+		bb := mkSelect(ex.elemArr(env.cur, elem, k, b.L[0]), idxAdd(b.L[1], i))
 		cs = append(cs, mkEq(aa, bb))
 	}
 	return mkAnd(mkEq(a.L[2], b.L[2]),
@@ -608,7 +608,7 @@ func (env *SpecEnv) evalIndex(n *Node) Val {
 		leaves := flatten(elem)
 		out := Val{T: elem, L: make([]string, len(leaves))}
 		for k := range leaves {
-			out.L[k] = mkSelect(ex.elemArr(env.cur, elem, k, x.L[0]), mkAdd(x.L[1], i.L[0]))
+			out.L[k] = mkSelect(ex.elemArr(env.cur, elem, k, x.L[0]), idxAdd(x.L[1], i.L[0]))
 		}
 		return out
 	case *types.Array:
@@ -691,12 +691,9 @@ func (env *SpecEnv) evalCall(n *Node) Val {
 			sfail("old() outside a postcondition")
 		}
 		c := *env
-		c.cur = env.old
+		// old heap, current locals (a local is not part of the heap)
+		c.cur = &State{heap: env.old.heap, cells: env.cur.cells}
 		c.old = nil
-		if env.atLoop {
-			// locals inside old() in a loop invariant refer to parameters only
-			c.fr = nil
-		}
 		return c.eval(args[0])
 	case "len":
 		x := env.eval(args[0])
@@ -718,6 +715,41 @@ func (env *SpecEnv) evalCall(n *Node) Val {
 	case "cap":
 		x := env.eval(args[0])
 		return mathInt(x.L[3])
+	case "lo", "hi", "base":
+		// absolute position of a slice inside its backing array
+		x := env.eval(args[0])
+		if x.T == nil {
+			sfail("%s() needs a slice", fn.Name)
+		}
+		if _, ok := x.T.Underlying().(*types.Slice); !ok {
+			sfail("%s() needs a slice", fn.Name)
+		}
+		switch fn.Name {
+		case "lo":
+			return mathInt(x.L[1])
+		case "hi":
+			return mathInt(mkAdd(x.L[1], x.L[2]))
+		}
+		return mathInt(x.L[0])
+	case "at":
+		// at(s, k): element at absolute index k of the backing array of s
+		x := env.eval(args[0])
+		k := env.eval(args[1])
+		sl, ok := x.T.Underlying().(*types.Slice)
+		if !ok {
+			sfail("at() needs a slice")
+		}
+		elem := sl.Elem()
+		leaves := flatten(elem)
+		out := Val{T: elem, L: make([]string, len(leaves))}
+		for j := range leaves {
+			if x.arr != nil {
+				out.L[j] = mkSelect(x.arr[j], k.L[0])
+			} else {
+				out.L[j] = mkSelect(ex.elemArr(env.cur, elem, j, x.L[0]), k.L[0])
+			}
+		}
+		return out
 	case "fresh":
 		x := env.eval(args[0])
 		ref := ex.lower(x).L[0]
@@ -774,6 +806,14 @@ func (env *SpecEnv) evalCall(n *Node) Val {
 		x := env.eval(args[0])
 		k := env.eval(args[1])
 		return mathBool(mkEq(mkMod(mkDiv(x.L[0], app(ex.pow2UF(), k.L[0])), "2"), "1"))
+	case "clock":
+		// the ghost clock: value of the most recent time.Now() reading
+		c, ok := env.cur.heap["clock"]
+		if !ok {
+			c = ex.sc.global("H0_clock", sInt)
+		}
+		tt := ex.eng.prog.ImportedPackage("time").Pkg.Scope().Lookup("Time").Type()
+		return Val{T: tt, L: []string{c}}
 	case "envlen":
 		return mathInt(ex.envLen(env.cur))
 	case "envkind":
@@ -789,6 +829,9 @@ func (env *SpecEnv) evalCall(n *Node) Val {
 	if pd := ex.eng.specs.Preds[fn.Name]; pd != nil {
 		if len(args) != len(pd.Params) {
 			sfail("%s expects %d arguments", fn.Name, len(pd.Params))
+		}
+		if pd.Rec {
+			return env.evalRec(pd, args)
 		}
 		if env.depth > 20 {
 			sfail("spec function recursion too deep in %s", fn.Name)
@@ -1067,6 +1110,8 @@ func (ex *Exec) evalModifies(env *SpecEnv, n *Node) []modItem {
 			out = append(out, modItem{compAlloc, "", sArr(sInt, sBool)})
 		case "envlog":
 			out = append(out, modItem{"envlog|len", "", sInt}, modItem{"envlog|kind", "", sArr(sInt, sInt)}, modItem{"envlog|arg", "", sArr(sInt, sArr(sInt, sInt))})
+		case "clock":
+			out = append(out, modItem{"clock", "", sInt})
 		case "nothing":
 		default:
 			sfail("bad modifies item %s", n.Name)
@@ -1095,9 +1140,22 @@ func (ex *Exec) modularCall(fr *Frame, st *State, reach string, callee *ssa.Func
 	// havoc the callee's frame
 	for _, m := range ctr.Modifies {
 		for _, mi := range ex.safeEvalModifies(env, m, ctr.Key) {
-			if mi.comp == "envlog|len" {
-				st.heap[mi.comp] = ex.sc.fresh("envlen", sInt)
+			if mi.comp == "envlog|len" || mi.comp == "clock" {
 				ex.compSort[mi.comp] = sInt
+				var old string
+				if mi.comp == "clock" {
+					o, ok := st.heap["clock"]
+					if !ok {
+						o = ex.sc.global("H0_clock", sInt)
+					}
+					old = o
+				} else {
+					old = ex.envLen(st)
+				}
+				nw := ex.sc.fresh(sanitize(mi.comp), sInt)
+				ex.sc.assert(mkCmp(">=", nw, old))
+				st.heap[mi.comp] = nw
+				ex.noteWrite(mi.comp, "*")
 				continue
 			}
 			old := ex.comp(st, mi.comp, mi.srt)
@@ -1177,4 +1235,107 @@ func (ex *Exec) loopEnv(fr *Frame, st *State) *SpecEnv {
 		env.vars[k] = v
 	}
 	return env
+}
+
+// evalRec: application of a recursive spec function. The function is an
+// uninterpreted symbol whose defining equation (forall parameters. f(ps) = body)
+// is asserted once per script; recursion must descend on the first parameter.
+func (env *SpecEnv) evalRec(pd *PredDef, args []*Node) Val {
+	ex := env.ex
+	type pinfo struct {
+		t     types.Type
+		sorts []string
+		seq   bool
+	}
+	var infos []pinfo
+	var sorts []string
+	for _, p := range pd.Params {
+		t := env.resolveType(p.Type)
+		pi := pinfo{t: t}
+		if t == nil {
+			pi.sorts = []string{sInt}
+		} else if sl, ok := t.Underlying().(*types.Slice); ok {
+			pi.seq = true
+			for _, l := range flatten(sl.Elem()) {
+				pi.sorts = append(pi.sorts, sArr(sInt, l.Sort))
+			}
+		} else {
+			ls := flatten(t)
+			if len(ls) != 1 {
+				sfail("parameter %s of %s must be scalar or a slice", p.Name, pd.Name)
+			}
+			pi.sorts = []string{ls[0].Sort}
+		}
+		infos = append(infos, pi)
+		sorts = append(sorts, pi.sorts...)
+	}
+	retT := env.resolveType(pd.Ret)
+	retSort := sInt
+	if pd.Ret == "bool" {
+		retSort = sBool
+	} else if retT != nil {
+		retSort = flatten(retT)[0].Sort
+	}
+	fname := "rec_" + pd.Name
+	if _, ok := ex.sc.decls[fname]; !ok {
+		ex.sc.fun(fname, sorts, retSort)
+		// defining axiom
+		c := &SpecEnv{ex: ex, cur: env.cur, vars: map[string]Val{}, pkg: env.pkg, qn: env.qn, depth: env.depth + 1}
+		var binders, actuals []string
+		for i, p := range pd.Params {
+			pi := infos[i]
+			var names []string
+			for j, srt := range pi.sorts {
+				*env.qn++
+				nm := fmt.Sprintf("qr_%s_%d_%d", sanitize(p.Name), j, *env.qn)
+				binders = append(binders, "("+nm+" "+srt+")")
+				names = append(names, nm)
+			}
+			actuals = append(actuals, names...)
+			switch {
+			case pi.seq:
+				c.vars[p.Name] = Val{T: pi.t, L: []string{"0", "0", "0", "0"}, arr: names}
+			case pi.t == nil:
+				c.vars[p.Name] = mathInt(names[0])
+			default:
+				c.vars[p.Name] = Val{T: pi.t, L: names}
+			}
+		}
+		ex.sc.pure++
+		body := c.eval(pd.Body)
+		ex.sc.pure--
+		app0 := app(fname, actuals...)
+		saved := ex.sc.pure
+		ex.sc.pure = 0
+		ex.sc.assert("(forall (" + strings.Join(binders, " ") + ") (! (= " + app0 + " " + body.L[0] + ") :pattern (" + app0 + ")))")
+		ex.sc.pure = saved
+	}
+	var actual []string
+	for i, a := range args {
+		v := env.eval(a)
+		if infos[i].seq {
+			if v.arr != nil {
+				actual = append(actual, v.arr...)
+				continue
+			}
+			sl := v.T.Underlying().(*types.Slice)
+			for j := range flatten(sl.Elem()) {
+				actual = append(actual, ex.elemArr(env.cur, sl.Elem(), j, v.L[0]))
+			}
+			continue
+		}
+		if v.isBool() && infos[i].sorts[0] == sBool || len(v.L) == 1 {
+			actual = append(actual, v.L[0])
+			continue
+		}
+		sfail("argument %d of %s has the wrong shape", i, pd.Name)
+	}
+	t := app(fname, actual...)
+	if retSort == sBool {
+		return mathBool(t)
+	}
+	if retT != nil {
+		return Val{T: retT, L: []string{t}}
+	}
+	return mathInt(t)
 }
